@@ -169,4 +169,7 @@ def run(ctx):
                 ctx.violation(name, '%s (%s[0x%02X])' % (tmfile, tm.NAMES.get(fam, fam), b), 'timing of %s: z80.py says %s, simulators take %s' % (name, sorted(want), bad), rule='C07.3-timing')
             else:
                 ctx.ok({'seq': name, 'timing': sorted(want)}, rule='C07.3-timing')
+    from sa.rules import C07operands
+    C07operands.run(ctx, repo, dis, tr)
+    C07operands.boundary_rule(ctx, repo, dis)
     return report.finish(ctx, EXPLANATION, exhaustive=True)
